@@ -81,6 +81,15 @@ Theorem C03_not_blocked : forall m s, reachable m s -> all_idle s -> fpend s <> 
 Proof. exact not_blocked. Qed.
 Print Assumptions C03_not_blocked.
 
+(* Pollers: the waiter wakes iff the control descriptor is in the watched set AND a byte is in the pipe
+   ([blocked] for select/poll/epoll = not (watched && pipe > 0)).  [reachable] is reachability from [init m] =
+   [init_k m true]: every descriptor-maintenance step ([APreen]: select failed on a stale descriptor, the lists are
+   weeded out) keeps the control descriptor.  Under that configuration the control descriptor stays watched for
+   ever, and C03_no_lost_wakeup / C03_progress above are theorems about exactly these states. *)
+Theorem C03_control_watched : forall m s, reachable m s -> watched s = true.
+Proof. exact control_watched. Qed.
+Print Assumptions C03_control_watched.
+
 (* ---- non-vacuity: blocked states with a queued foreign event are reachable (the firing thread is mid-fire) *)
 Definition idle_fallback : list (nat * lbl) :=
   map (fun a => (0, a))
@@ -136,3 +145,21 @@ Example C03_ex_progress :
     fpend s = [EvF 0 0; EvF 1 0; EvF 0 1] /\ measure s = 171 /\
     lrun 17 s = Some s' /\ fpend s' = [] /\ disp s' = [EvG 0; EvF 0 0; EvF 1 0; EvF 0 1] /\ lrun 16 s = None.
 Proof. eexists. eexists. split; [vm_compute; reflexivity|]. vm_compute. auto 10. Qed.
+
+(* A maintenance step that DROPS the control descriptor ([init_k Poller false]) refutes the property: the loop weeds
+   its lists once, parks in select again, a fire() completes (byte written, fire returned) and the loop stays blocked
+   with the event queued.  The same trace on the real configuration ends with the loop NOT blocked. *)
+Definition poller_tick (g : nat) : list (nat * lbl) :=
+  map (fun a => (0, a)) [ACount; AAppG Neg; ASnap; AMove; ACall (EvG g); AAcq; ASetH; AArmTest; ARel; ASetHd HWake; ARdTl].
+Definition preen_then_fire : list (nat * lbl) :=
+  poller_tick 0 ++ [(0, APreen); (0, AClr)] ++ poller_tick 1 ++ fire_upto_append ++ fire_rest.
+
+Example C03_leaky_preen_refuted :
+  exists s, run (init_k Poller false) preen_then_fire = Some s /\
+            blocked s = true /\ pending s = [EvF 0 0] /\ returned s (EvF 0 0) = true /\ pipe s = 1 /\ watched s = false.
+Proof. eexists. split; [vm_compute; reflexivity|]. vm_compute. auto 10. Qed.
+
+Example C03_keeping_preen_wakes :
+  exists s, run (init Poller) preen_then_fire = Some s /\
+            blocked s = false /\ watched s = true /\ step s (0, ASelect true true) <> None.
+Proof. eexists. split; [vm_compute; reflexivity|]. vm_compute. repeat split; discriminate. Qed.
